@@ -70,7 +70,9 @@
 (* Unconstrained (the statement is silent): duplicate Starts / Interims,    *)
 (* order of Interims relative to Stop, packet counters, session time,       *)
 (* terminate cause, which of the reported counter values a record carries,  *)
-(* Stops re-sent by a later incarnation.                                    *)
+(* Stops re-sent by a later incarnation, whether and when API calls return  *)
+(* (a blocked call matters only through the Stops that are then never       *)
+(* accepted).                                                               *)
 (***************************************************************************)
 EXTENDS Integers, Sequences, FiniteSets
 
